@@ -20,7 +20,7 @@ func init() {
 				"NOT decided (most of the behavioural statement): the directory diff over histories, burst behaviour, the relative order of Remove and Create - these depend on listing results and kevent timing, and no simulated kernel is run (that would be a different technique).",
 			Rule:        "one obligation per synthetic-Create send, per seen-table update/delete site, per reader branch, per translator store",
 			Assumptions: []string{"go/types + go/ssa"},
-			MinObl:      6,
+			MinObl:      7,
 		},
 		Configs: tiered(kqueueQuick, kqueueAll),
 		Run:     runC18,
